@@ -391,6 +391,14 @@ def run_shard(cfg):
                 b = r.randbytes(r.randint(0, 300))
             judge("handler:" + via, b, via=via)
             c.inc("via_" + via)
+        # the decoder must not be disturbed by the history of refused inputs: valid encodings still decode
+        for kind, b in valid:
+            if kind == "value":
+                try:
+                    S.Serializable.loadb(b)
+                    c.inc("post_control_valid_decoded")
+                except Exception as e:
+                    viol("decoder-disturbed-by-hostile-history", "after %d hostile inputs a valid encoding is refused: %r" % (c.get("inputs", 0), e), {"input": b[:64].hex()})
         if len(samples) < 3:
             samples.append({"attack_examples": [(l, b[:24].hex()) for l, b in attacks[::37]][:8],
                             "worst_alloc_bytes_per_input_byte": round(worst["ratio"], 1), "worst_activation_ratio": round(worst["act"], 3),
@@ -409,7 +417,7 @@ def finish(tier, seed, results):
     inconclusive = []
     need(m["counters"], ["inputs", "returned", "raised_ordinary_exception", "control_valid_decoded", "inputs_declared-length", "inputs_deep-nesting-seq",
                          "inputs_truncation", "inputs_bitflip", "inputs_typeid", "inputs_random", "via_client-hello-handler", "via_challenge-handler",
-                         "via_server-hello-handler", "via_request-message", "decoded_values_inspected", "decoder_line_steps"], inconclusive)
+                         "via_server-hello-handler", "via_request-message", "decoded_values_inspected", "decoder_line_steps", "post_control_valid_decoded"], inconclusive)
     if m["counters"].get("watchdog_inconclusive"):
         inconclusive.append("%d inputs exceeded the 5 s wall-clock watchdog" % m["counters"]["watchdog_inconclusive"])
     if m["counters"].get("control_valid_failed"):
